@@ -114,4 +114,4 @@ def unit():
                 #[trigger] final(buf1)@[i] == old(buf1)@[i] ^ old(buf2)@[i] && #[trigger] final(buf2)@[i] == old(buf1)@[i] ^ old(buf2)@[i]''')])})])
     buf = Mod('cfb_buf', 'cfb-mode/src/encrypt/buf.rs', uses='use super::cfb_encrypt::xor_set1;',
               items=buf_items('BufEncryptor', 'encrypt', True))
-    return Unit('cfb', prelude=K.PRELUDE_BLOCK, spec=['steps.rs'], mods=[dec, enc, buf])
+    return Unit('cfb', prelude=K.PRELUDE_BLOCK, spec=['steps.rs'], mods=K.DEPS() + [dec, enc, buf])
